@@ -1368,7 +1368,16 @@ class SVG:
 
         # https://github.com/googlefonts/picosvg/issues/269 remove empty subpaths *after* rounding
         self.remove_empty_subpaths(inplace=True)
-        self.remove_unpainted_shapes(inplace=True)
+        # Dropping an unpainted shape can leave a group with fewer than two children;
+        # flattening that group multiplies opacities, which (once rounded) can make
+        # another shape invisible: repeat until nothing changes.
+        while True:
+            self.remove_unpainted_shapes(inplace=True)
+            groups = [c.element for c in self.depth_first() if _is_group(c.element)]
+            if not any([_try_remove_group(g) for g in reversed(groups)]):
+                break
+            self.round_floats(ndigits, inplace=True)
+            self._update_etree()
         # dropping unpainted shapes may leave gradients nobody references
         self._remove_orphaned_gradients()
         self.elements = None
